@@ -41,7 +41,7 @@ type Opts struct {
 }
 
 var keyPool = []string{"a", "b", "c", "d", "x", "0", "1", "2", "k"}
-var oddKeys = []string{"", "a/b", "..", "-1", "ü", "00"}
+var oddKeys = []string{"", "a/b", "..", ".", "-1", "ü", "00", "+1", "-"}
 
 func link(codec uint64, block []byte) string {
 	d := sha256.Sum256(block)
